@@ -690,6 +690,12 @@ func (c *client) processWorkDone(
 		return NewErrorExecutionResult(fmt.Errorf(
 			"step with run ID '%s' sent a work done message without an output ID; the message is incomplete or corrupted", runID))
 	}
+	if doneMessage.OutputData == nil {
+		// The same goes for the output data: every output is an object, an empty one at the least. A map that was cut
+		// short behind the output ID must not pass for an output without data.
+		return NewErrorExecutionResult(fmt.Errorf(
+			"step with run ID '%s' sent a work done message without output data; the message is incomplete or corrupted", runID))
+	}
 	c.logger.Debugf("Step with run ID '%s' completed with output ID '%s'.", runID, doneMessage.OutputID)
 
 	// Print debug logs from the step as debug.
